@@ -277,11 +277,17 @@ class EllipseFitter:
         # See if eps == 0 (round isophote) was crossed.
         # If so, fix it but still proceed
         if sample.geometry.eps < 0.0:
-            sample.geometry.eps = min(-sample.geometry.eps, MAX_EPS)
-            if sample.geometry.pa < PI2:
-                sample.geometry.pa += PI2
+            if sample.geometry.fix[2]:
+                # the position angle is held fixed, so the sign cannot
+                # be absorbed by rotating the ellipse by 90 degrees;
+                # make the isophote (nearly) round instead.
+                sample.geometry.eps = MIN_EPS
             else:
-                sample.geometry.pa -= PI2
+                sample.geometry.eps = min(-sample.geometry.eps, MAX_EPS)
+                if sample.geometry.pa < PI2:
+                    sample.geometry.pa += PI2
+                else:
+                    sample.geometry.pa -= PI2
 
         # If ellipse is an exact circle, computations will diverge.
         # Make it slightly flat, but still proceed
